@@ -117,9 +117,9 @@ class Ctx:
         self.b, self.env, self.work, self.seed = b, dict(env), work, seed
         self.env.pop("LD_PRELOAD", None)
 
-    def run(self, argv, ok=(0,), timeout=60, input=None):
+    def run(self, argv, ok=(0,), timeout=60, input=None, env=None):
         try:
-            p = subprocess.run(argv, stdout=subprocess.PIPE, stderr=subprocess.STDOUT, env=self.env, timeout=timeout,
+            p = subprocess.run(argv, stdout=subprocess.PIPE, stderr=subprocess.STDOUT, env=env or self.env, timeout=timeout,
                                cwd=self.work, input=input)
         except subprocess.TimeoutExpired:
             raise GenError("generator command timed out: %s" % " ".join(argv))
@@ -127,22 +127,25 @@ class Ctx:
             raise GenError("generator command failed rc=%d: %s\n%s" % (p.returncode, " ".join(argv), p.stdout.decode("utf8", "replace")[-1500:]))
         return p.returncode, p.stdout.decode("utf8", "replace")
 
-    def dbg(self, img, cmds, write=True, ok=(0,)):
+    def dbg(self, img, cmds, write=True, ok=(0,), extra=(), env_extra=None, want_rc=False):
         script = os.path.join(self.work, "gen_%d_%d.dfs" % (os.getpid(), threading.get_ident()))
         with open(script, "w") as f:
             f.write("\n".join(cmds) + "\n")
-        argv = [os.path.join(self.b, "debugfs", "debugfs")] + (["-w"] if write else []) + ["-f", script, img]
+        argv = [os.path.join(self.b, "debugfs", "debugfs")] + (["-w"] if write else []) + list(extra) + ["-f", script, img]
         # a read-write open of an MMP file system sleeps 2*interval+1 s in ext2fs_mmp_start: hide the feature bit
         # from the generator's own debugfs runs (the states are inputs; how they are made is not under test)
         inc = struct.unpack_from("<I", rd(img, 1024 + 96, 4))[0]
         hide = write and (inc & 0x100) and rd(img, 1024 + 56, 2) == b"\x53\xef"
         if hide:
             sb_set(img, 96, "<I", inc & ~0x100)
-        out = self.run(argv, ok=None)[1]
+        env = None
+        if env_extra:
+            env = dict(self.env); env.update(env_extra)
+        rc, out = self.run(argv, ok=None, env=env)
         if hide:
             inc2 = struct.unpack_from("<I", rd(img, 1024 + 96, 4))[0]
             sb_set(img, 96, "<I", inc2 | 0x100)
-        return out
+        return (rc, out) if want_rc else out
 
     def dbg1(self, img, cmd):
         return self.run([os.path.join(self.b, "debugfs", "debugfs"), "-R", cmd, img], ok=None)[1]
@@ -626,6 +629,61 @@ def v_inline_size(ctx, img, g):
     ctx.dbg(img, ["sif tiny size 70000", "sif bigdir/entry_with_a_long_name_5 size 61"])
 
 
+# --- journal superblock s_errno (the journal recorded an error: e2fsck wants to clear it and flag the filesystem)
+def _jsb_errno(ctx, img, g, val=-5):
+    off = _jsb_off(ctx, img, g)
+    jsb = bytearray(rd(img, off, 1024))
+    magic, btype = struct.unpack_from(">II", jsb, 0)
+    if magic != 0xC03B3998 or btype not in (3, 4):
+        raise GenError("journal block 0 is not a journal superblock (magic %#x type %d)" % (magic, btype))
+    struct.pack_into(">i", jsb, 0x20, val)
+    if struct.unpack_from(">I", jsb, 0x28)[0] & 0x18:           # JBD2_FEATURE_INCOMPAT_CSUM_V2 | _V3: keep s_checksum valid
+        jsb[0xFC:0x100] = b"\0\0\0\0"
+        struct.pack_into(">I", jsb, 0xFC, crc32c(0xFFFFFFFF, bytes(jsb)))
+    poke(img, off, bytes(jsb))
+
+
+def _axis_fn(j, o):
+    """State of the (journal, orphan) axes of spec/ToolRunUniv.tla, composed from the single recipes."""
+    def f(ctx, img, g):
+        if o == "list":
+            v_orphan_list(ctx, img, g)
+        elif o == "file":
+            _orphan_file(ctx, img, g, True)
+        if j in ("recover", "recover_errno"):
+            v_jrn_recover(ctx, img, g)
+        if j in ("errno", "recover_errno"):
+            _jsb_errno(ctx, img, g)
+    return f
+
+
+# axis points that an older variant already realises (same recipe): no second image
+AXIS_ALIAS = {("none", "none"): "clean", ("clean", "none"): "clean", ("none", "list"): "orphan_list", ("clean", "list"): "orphan_list",
+              ("clean", "file"): "orphan_file", ("recover", "none"): "jrn_recover", ("recover", "list"): "jrn_recover_orphan",
+              ("recover", "file"): "orphan_file_recover"}
+
+
+def axis_variant(prof, j, o):
+    """Variant name of axis point (j, o) on this profile, or None when the profile cannot be in it."""
+    if (j == "none") != (prof not in HAS_JOURNAL):
+        return None
+    if o == "file" and prof != "ext4":              # the only profile made with orphan_file
+        return None
+    return AXIS_ALIAS.get((j, o), "ax_%s_%s" % (j, o))
+
+
+def axis_variants(axes):
+    out = []
+    for a in axes:
+        j, o = a["j"], a["o"]
+        if (j, o) in AXIS_ALIAS:
+            continue
+        applies = (lambda jj, oo: lambda p: axis_variant(p, jj, oo) is not None)(j, o)
+        out.append(("ax_%s_%s" % (j, o), "journal", applies, _axis_fn(j, o)))
+    return out
+
+
+
 ALL = lambda p: True
 JRN = lambda p: p in HAS_JOURNAL
 VARIANTS = [
@@ -712,8 +770,8 @@ def sparse_copy(src, dst):
         fo.truncate(os.path.getsize(src))
 
 
-def variant_table(tier):
-    v = list(VARIANTS)
+def variant_table(tier, axes=()):
+    v = list(VARIANTS) + axis_variants(axes)
     for n in range(NRAND[tier]):
         v.append(("rand_%02d" % n, "corrupt", ALL, v_rand(n)))
     return v
